@@ -980,6 +980,7 @@ func c09individual(g *c07gen) *TNode {
 
 func init() {
 	runners["C09"] = func(c *Ctx) {
+		c.Compare = c07tieCompare(c) // exact ties of Years() inside Date.Equals: inconclusive, counted
 		c.Rule = "distinct = (operation and merge function, relation of the inputs, equality rules and record kinds present in the result, size classes of inputs and result / lengths and number of merges)"
 		r := c.R
 		tame := &c07gen{r: r}
@@ -1009,6 +1010,9 @@ func init() {
 		// the family (known finding)
 		c09nodesCase(c, T("X", "", "", T("FAM", "", "F1", T("HUSB", "@I1@", ""))), T("X", "", "", T("FAM", "", "F1", T("HUSB", "@I1@", ""))), "pinned-nested-family")
 		c09sliceCase(c, "eq", []*TNode{T("HUSB", "@I1@", "")}, []*TNode{T("HUSB", "@I1@", "")}, "pinned-role-elements")
+		// exact tie of Years() inside Date.Equals (Bef./Bef. compares Years()): inconclusive in the tie, oracles apply
+		c09nodesCase(c, T("X", "", "", T("DATE", "Bef. 16 Dec 1880", "")), T("X", "", "", T("DATE", "Bef. Dec 1880", "")), "pinned-years-tie")
+		c09nodesCase(c, T("X", "", "", T("DATE", "Aft. Dec 1880", "")), T("X", "", "", T("DATE", "16 Dec 1880", ""), T("DATE", "2 Jul 1881", "")), "pinned-years-tie")
 		c09nilCases(c)
 
 		n := c.N(10000, 160000)
